@@ -553,6 +553,12 @@ func c18Join(xs []string) string {
 
 func runC18(c *Ctx) {
 	res := c.Res
+	rule0 := res.Rule
+	defer func() {
+		if c.Prop != "C18" {
+			res.Rule = rule0 // C09 borrows a slice of this stream (ez's use of the delay / suppress options)
+		}
+	}()
 	res.Rule = "each case (own PRNG stream derived from seed and case index, so a single case replays alone): one config type (14 leaves: string/int/float/bool/uint16/int64/[]string/[]int/map/nested struct, the validity leaf zneed, the path leaf zpath); " +
 		"every leaf is assigned to a random subset of {default, file, environment, flag} with a distinct value per layer - for the collection leaves an explicitly EMPTY collection (file: [] / {}, environment and flags: empty text) in 22% of the assignments above the defaults; flags come from flag.NewSetWithArgs, from a flag.Set over a FlagSet on which the application pre-registered a random subset of the scalar flags, or from a flag.Set over a FlagSet an earlier ez call already registered all flags on; the path leaf gets a different existing file per layer " +
 		"(the file layer's own zpath names a decoy), every file other than the one ConfigPath(defaults+env+flags) names carries foreign values for all leaves; " +
@@ -562,6 +568,9 @@ func runC18(c *Ctx) {
 		"with watching: 1-3 atomic rewrites (valid, invalid, valid again) awaited by polling (10 s deadline). " +
 		"non-trivial: ez reached the file and the file changes the stack (full != file-less) — distinct by (format, variant, watch, per-leaf layer subsets, kind)"
 	n := c.scale(2500, 30000)
+	if c.Prop != "C18" {
+		n = c.scale(250, 3000)
+	}
 	root := filepath.Join(c.WorkDir, "c18files")
 	if c.WorkDir == "" {
 		root, _ = os.MkdirTemp("", "c18files")
